@@ -13,6 +13,12 @@ Tie (model ↔ code, this run):
   * numeric (rtol 1e-9 + conditioning guard): compiled value, `evaluate`, the dict wrapper and
     `CompiledExpression.value` vs the model over Lean `Float`; parameters are `.set()` between
     compilation and call.
+Magnitude dimension: every node that stores numbers (LinearCombination over variables / expressions,
+A @ x rows, QuadraticForm entries, Constant leaves, integer powers, VectorPowerSum, Parameters) with
+stored numbers in {0, ±1e-300, ±1e-12, ±1e-9, ±1e-8(1±ε), ±1e-7, ±1, ±1e8, ±1e16} and coordinates in
+{±1e-9 … ±1e9} (also paired so that tiny·huge terms matter); each observable is compared with the
+*exact* rational value (Fractions) with a tolerance relative to Σ|terms| — no absolute floor.
+
 Oracle (independent of the Lean model): harness/oracle.py `ref_eval` (plain `math`) vs the four
 observables of the real code at regular points.
 """
@@ -133,7 +139,7 @@ def clo_ir(fn) -> str:
                 raise UnknownClosure(f"{args} free={it.__code__.co_freevars}")
         elif args == ("x", "v"):
             out.append(_k(d[0]))
-        elif args == ("x", "p") and "value" in names:
+        elif args == ("x", "p") and ("value" in names or "_param_value" in names):
             out.append(f'(par "{d[0].name}")')
         elif args == ("x", "i"):
             out.append(f"(ix {int(d[0])})")
@@ -728,7 +734,281 @@ def run(ctx) -> core.Report:
                                 "ir": model[(ci, "ir", 400)], "value": ref})
     rep.histogram["cases"] = len(cases)
     rep.histogram["numeric_points"] = sum(1 for c in cases if c.get("ref") is not None and c.get("cond"))
+    magnitude_section(rep, rng, thorough, ids)
     return rep
+
+
+
+# ----------------------------------------------------------------------------- magnitudes (exact rational reference)
+
+
+class NotExact(Exception):
+    pass
+
+
+def exact_eval(e, pt):
+    """(value, bound) as Fractions for the polynomial / rational fragment: `value` is the exact
+    mathematical value at the point, `bound` the same formula with every number and every partial
+    result replaced by its absolute value (Σ|terms|: the scale against which rounding is judged)"""
+    from fractions import Fraction as F
+    from optyx.core.expressions import BinaryOp, Constant, UnaryOp, Variable
+    from optyx.core.parameters import Parameter
+    from optyx.core import vectors as V
+    from optyx.core import matrices as M
+
+    def num(x):
+        a = np.asarray(x)
+        if a.ndim != 0:
+            raise NotExact("array constant")
+        v = a.item()
+        return F(v) if isinstance(v, int) else F(float(v))
+
+    def vec(v):
+        if isinstance(v, V.VectorVariable):
+            return [go(x) for x in v._variables]
+        return [go(x) for x in v._expressions]
+
+    def ipow(b, n):
+        if n.denominator != 1 or abs(n) > 64:
+            raise NotExact("non-integer power")
+        n = int(n)
+        if n >= 0:
+            return (b[0] ** n, b[1] ** n)
+        if b[0] == 0:
+            raise NotExact("negative power of zero")
+        return (1 / b[0] ** (-n), 1 / abs(b[0]) ** (-n))
+
+    def go(n):
+        if isinstance(n, Constant):
+            v = num(n.value)
+            return (v, abs(v))
+        if isinstance(n, Variable):
+            v = F(float(pt[n.name]))
+            return (v, abs(v))
+        if isinstance(n, Parameter):
+            v = num(n.value)
+            return (v, abs(v))
+        if isinstance(n, BinaryOp):
+            a, b = go(n.left), go(n.right)
+            if n.op == "+": return (a[0] + b[0], a[1] + b[1])
+            if n.op == "-": return (a[0] - b[0], a[1] + b[1])
+            if n.op == "*": return (a[0] * b[0], a[1] * b[1])
+            if n.op == "/":
+                if b[0] == 0:
+                    raise NotExact("division by zero")
+                return (a[0] / b[0], a[1] / abs(b[0]))
+            if n.op == "**": return ipow(a, b[0])
+            raise NotExact(n.op)
+        if isinstance(n, UnaryOp):
+            a = go(n.operand)
+            if n.op == "neg": return (-a[0], a[1])
+            if n.op == "abs": return (abs(a[0]), a[1])
+            raise NotExact(n.op)
+        if isinstance(n, V.LinearCombination):
+            xs = vec(n.vector)
+            cs = [num(c) for c in np.asarray(n.coefficients).tolist()]
+            return (sum((c * x[0] for c, x in zip(cs, xs)), F(0)), sum((abs(c) * x[1] for c, x in zip(cs, xs)), F(0)))
+        if isinstance(n, V.VectorSum):
+            xs = vec(n.vector)
+            return (sum((x[0] for x in xs), F(0)), sum((x[1] for x in xs), F(0)))
+        if isinstance(n, V.VectorExpressionSum):
+            xs = [go(x) for x in n.expression._expressions]
+            return (sum((x[0] for x in xs), F(0)), sum((x[1] for x in xs), F(0)))
+        if isinstance(n, V.DotProduct):
+            a, b = vec(n.left), vec(n.right)
+            return (sum((x[0] * y[0] for x, y in zip(a, b)), F(0)), sum((x[1] * y[1] for x, y in zip(a, b)), F(0)))
+        if isinstance(n, V.L1Norm):
+            xs = vec(n.vector)
+            return (sum((abs(x[0]) for x in xs), F(0)), sum((x[1] for x in xs), F(0)))
+        if isinstance(n, M.QuadraticForm):
+            xs = vec(n.vector)
+            Q = np.asarray(n.matrix).tolist()
+            val = sum((num(Q[i][j]) * xs[i][0] * xs[j][0] for i in range(len(xs)) for j in range(len(xs))), F(0))
+            bnd = sum((abs(num(Q[i][j])) * xs[i][1] * xs[j][1] for i in range(len(xs)) for j in range(len(xs))), F(0))
+            return (val, bnd)
+        if isinstance(n, V.VectorPowerSum):
+            k = F(float(n.power))
+            xs = [ipow(go(x), k) for x in n.vector._variables]
+            return (sum((x[0] for x in xs), F(0)), sum((x[1] for x in xs), F(0)))
+        if isinstance(n, M.MatrixSum):
+            if isinstance(n.matrix, M.MatrixVariable):
+                xs = [go(x) for row in n.matrix._variables for x in row]
+            else:
+                xs = [go(x) for row in n.matrix._expressions for x in row]
+            return (sum((x[0] for x in xs), F(0)), sum((x[1] for x in xs), F(0)))
+        raise NotExact(type(n).__name__)
+
+    return go(e)
+
+
+STORED = [0.0, 1e-300, -1e-300, 1e-12, -1e-12, 1e-9, -1e-9, 4e-9, 7.5e-9, 1e-8 * (1 + 2 ** -20), -1e-8 * (1 - 2 ** -20),
+          1e-8, 1e-7, -1e-7, 1.0, -1.0, 3.0, -2.0, 0.5, 1e8, -1e8, 1e16, -1e16]
+COORDS = [1e-9, -1e-9, 1e-3, -1e-3, 0.5, 1.0, -2.0, 5.0, 1e3, -1e3, 2e8, -2e8, 5e8, 1e9, -1e9]
+
+
+def magnitude_cases(rng, thorough):
+    """(tag, expression, ordered variables, point, parameters-to-set)"""
+    from optyx import Variable, VectorVariable, MatrixVariable, Parameter
+    from optyx.core.expressions import BinaryOp, Constant
+    from optyx.core import vectors as V
+    from optyx.core import matrices as M
+
+    out = []
+
+    def coeffs(n, style):
+        if style == "tiny":
+            pool = [c for c in STORED if abs(c) <= 1e-7]
+        elif style == "mixed":
+            pool = STORED
+        else:  # "one-tiny": ordinary numbers with one or two tiny non-zero entries
+            cs = [rng.choice([1.0, -2.0, 3.0, 0.5, -1.0]) for _ in range(n)]
+            for j in rng.sample(range(n), min(n, rng.choice([1, 2]))):
+                cs[j] = rng.choice([c for c in STORED if 0 < abs(c) <= 1e-7])
+            return cs
+        return [rng.choice(pool) for _ in range(n)]
+
+    def coords(cs, style):
+        xs = []
+        for c in cs:
+            if style == "paired" and c != 0 and 1e-12 <= abs(c) <= 1e-7:
+                # a coordinate that makes the tiny coefficient matter: |c·x| ~ 1
+                xs.append(rng.choice([1.0, -1.0, 2.0, 0.5]) * (10.0 ** round(-math.log10(abs(c)))) * rng.choice([1.0, 0.5, 0.2]))
+            else:
+                xs.append(rng.choice(COORDS))
+        return xs
+
+    reps = 60 if thorough else 24
+    for r in range(reps):
+        n = rng.randint(2, 6)
+        x = VectorVariable("x", n)
+        y = VectorVariable("y", n)
+        p = Parameter("p", 1.0)
+        for cstyle in ("one-tiny", "tiny", "mixed"):
+            for xstyle in ("paired", "free"):
+                cs = coeffs(n, cstyle)
+                xs = coords(cs, xstyle)
+                ys = [rng.choice(COORDS[:10]) for _ in range(n)]
+                pt = {**{x[i].name: xs[i] for i in range(n)}, **{y[i].name: ys[i] for i in range(n)}}
+                pv = rng.choice([1e-9, 1e8, -3.0, 4e-9])
+                Vx, Vxy = list(x), list(x) + list(y)
+                A = np.array([coeffs(n, cstyle) for _ in range(n)])
+                Q = np.array([coeffs(n, cstyle) for _ in range(n)])
+                kind = r % 9 if not thorough else None
+                fam = [
+                    ("lc:vars", V.LinearCombination(np.array(cs), x), Vx),
+                    ("lc:matmul", np.array(cs) @ x, Vx),
+                    ("lc:exprs", V.LinearCombination(np.array(cs), x * 2.0 - y), Vxy),
+                    ("matvec:sum", (A @ x).sum(), Vx),
+                    ("matvec:dot", V.DotProduct(y, A @ x), Vxy),
+                    ("qf", M.QuadraticForm(x, Q), Vx),
+                    ("scalar", _scalar_sum(cs, list(x)), Vx),
+                    ("const-leaf", (x[0] + Constant(cs[0])) * Constant(cs[1]) - Constant(cs[-1]) / (y[0] * y[0] + 1.0), Vxy),
+                    ("power", BinaryOp(x[0] * cs[0] + x[1], Constant(rng.choice([0, 1, 2, 3, -1, -2])), "**") + Constant(cs[1]) * x[1] ** 2, Vx),
+                    ("powersum", V.VectorPowerSum(x, rng.choice([1, 2, 3, -1, -2])) * cs[0] + cs[1], Vx),
+                    ("dot:const-exprs", V.DotProduct(x, V.VectorExpression([Constant(c) * y[i] for i, c in enumerate(cs)])), Vxy),
+                    ("param", p * V.LinearCombination(np.array(cs), x) + p * x[0], Vx),
+                    ("es", (x * np.array(cs)).sum() if hasattr(x, "__mul__") else None, Vx),
+                ]
+                for j, (tag, e, VV) in enumerate(fam):
+                    if e is None or (not thorough and (j + r) % 3 != 0):
+                        continue
+                    VV = list(VV)
+                    if rng.random() < 0.5:
+                        rng.shuffle(VV)
+                    out.append((f"mag:{tag}:{cstyle}:{xstyle}", e, VV, {v.name: pt[v.name] for v in VV}, {p: pv}))
+    return out
+
+
+def _scalar_sum(cs, xs):
+    from optyx.core.expressions import Constant
+
+    acc = None
+    for c, v in zip(cs, xs):
+        t = Constant(c) * v
+        acc = t if acc is None else acc + t
+    return acc
+
+
+def check_exact(e, V, pt, thr):
+    """the four observables against the exact rational value; None = holds / not judged"""
+    import optyx.core.compiler as C
+    from fractions import Fraction as F
+
+    try:
+        val, bnd = exact_eval(e, pt)
+    except (NotExact, ZeroDivisionError, OverflowError):
+        return "skip"
+    try:
+        want, scale = float(val), float(bnd)
+    except OverflowError:
+        return "skip"
+    if not (math.isfinite(want) and math.isfinite(scale)) or scale > 1e250:
+        return "skip"
+    tol = 1e-9 * scale + 1e-305
+    old = C._RECURSION_THRESHOLD
+    try:
+        C._RECURSION_THRESHOLD = thr
+        C._compile_cached.cache_clear()
+        arr = np.array([pt[v.name] for v in V], dtype=float)
+        obs = {
+            "compile_expression(e,V)(x)": call(lambda: C.compile_expression(e, V)(arr)),
+            "e.evaluate(values)": call(lambda: e.evaluate(dict(pt))),
+            "compile_to_dict_function(e,V)(values)": call(lambda: C.compile_to_dict_function(e, V)(dict(pt))),
+            "CompiledExpression.value": call(lambda: C.CompiledExpression(e, V).value(arr)),
+        }
+    finally:
+        C._RECURSION_THRESHOLD = old
+        C._compile_cached.cache_clear()
+    for nm, (got, err) in obs.items():
+        if got is None:
+            if err in ("ZeroDivisionError", "OverflowError", "FloatingPointError"):
+                continue
+            return {"what": f"{nm} raised {err}", "want": want, "observable": nm}
+        if not math.isfinite(got):
+            continue  # overflow of an intermediate: outside the domain of the float program
+        if abs(F(got) - val) > F(tol):
+            return {"what": f"{nm} differs from the exact rational value (tolerance 1e-9·Σ|terms|)", "got": got,
+                    "want": want, "sum_abs_terms": scale, "observable": nm}
+    return None
+
+
+def magnitude_section(rep, rng, thorough, ids):
+    lines, metas = [], []
+    n_ok = 0
+    for i, (tag, e, V, pt, pset) in enumerate(magnitude_cases(rng, thorough)):
+        for p, v in pset.items():
+            p.set(v)
+        thr = THRESHOLDS[i % 3]
+        key = ":".join(tag.split(":")[:2])
+        rep.histogram[key] = rep.histogram.get(key, 0) + 1
+        r = check_exact(e, V, pt, thr)
+        if r == "skip":
+            rep.skipped["magnitude case outside the exact fragment / overflow"] = rep.skipped.get(
+                "magnitude case outside the exact fragment / overflow", 0) + 1
+            continue
+        try:
+            s = Ser(ids).expr(e)
+        except Unsupported:
+            s = None
+        if r is not None:
+            r.update({"expr": s, "vars": [v.name for v in V], "point": pt, "threshold": thr, "exact": True,
+                      "params": {p.name: v for p, v in pset.items()}, "tag": tag})
+            rep.oracle_failures.append(r)
+        else:
+            n_ok += 1
+            rep.nontrivial.add(hash((tag, s, tuple(pt.values()))))
+        if s is not None and i % 2 == 0:
+            vtxt = "(" + " ".join(Ser(ids).var(v) for v in V) + ")"
+            txt, _ = py_compile(e, V, thr)
+            lines.append(f"compile {s} {vtxt} {thr}")
+            metas.append((tag, s, txt))
+    outs = run_lean_unit(lines)
+    rep.evaluations += len(lines) + n_ok
+    for (tag, s, impl), model in zip(metas, outs):
+        if impl != model:
+            rep.corr_mismatches.append({"what": "closure IR differs (magnitude case)", "tag": tag, "expr": s[:400],
+                                        "impl": impl[:400], "model": model[:400]})
+    rep.histogram["magnitude_points"] = n_ok
 
 
 # ----------------------------------------------------------------------------- search / replay
@@ -770,6 +1050,17 @@ def check_point(e, V, pt, newp, thr):
 
 def search(ctx, rep):
     rng = core.Rng(ctx["seed"] + 104729)
+    for tag, e, V, pt, pset in magnitude_cases(rng, True):
+        for p, v in pset.items():
+            p.set(v)
+        r = check_exact(e, V, pt, 400)
+        if r not in (None, "skip"):
+            try:
+                r.update({"expr": ser(e), "vars": [v.name for v in V], "point": pt, "threshold": 400, "exact": True,
+                          "params": {p.name: v for p, v in pset.items()}})
+            except Unsupported:
+                continue
+            return r
     for i in range(6000):
         U = gen.Universe(rng)
         e = gen.rand_expr(rng, U, rng.randint(1, 5), safe=True)
@@ -823,6 +1114,10 @@ def replay(payload) -> bool:
         if m is not None and hasattr(m, "_expressions"):
             stack += [x for row in m._expressions for x in row]
     pt = {k: float(v) for k, v in f["point"].items()}
+    if f.get("exact"):
+        r = check_exact(e, V, pt, int(f.get("threshold", 400)))
+        print("check_exact:", r)
+        return r in (None, "skip")
     r = check_point(e, V, pt, {}, int(f.get("threshold", 400)))
     print("check_point:", r)
     return r is None
